@@ -8,6 +8,7 @@ checks = {
  "C04": ("GF(2) lemmas on the real updateByte over all states/bytes/patterns; header verdicts of the four APIs over all header bytes; direct bursts on short frames", "§5/C04"),
  "C05": ("Encode on Files built through the public API with symbolic field values, output parsed by an independent grammar walker in the harness (header, definitions, records, sizes, CRCs, wire values) and the File's bookkeeping compared with the bytes written", "§5/C05"),
  "C06": ("the bytes Encode wrote (symbolic terms) are fed to the real Decode on the same path and the decoded File compared field by field with the original", "§5/C06"),
+ "C07": ("messages produced by the real record parser from arbitrary accepted single-field definitions and data are stored in a File, encoded, integrity-checked, decoded, encoded and decoded again on one symbolic path; encodability, counts and the fixpoint are solver-decided", "§5/C07"),
  "C12": ("step lemma over all 2^32 reference timestamps x 32 offsets x 256 header bytes, conversions over all 2^32 field values, short sequences through the real record parser", "§5/C12"),
  "C13": ("one record through the real decodeFileData loop from a state with 16 distinguishable definitions, header byte and record bytes symbolic", "§5/C13"),
  "C14": ("updateByte == bit-serial CRC-16/ARC step for all 2^24 (state, byte) pairs; streaming interface == fold of that step for <= 8 bytes and every split; residue rule from every state", "§5/C14"),
@@ -17,7 +18,6 @@ checks = {
  "C20": ("every generated type's real String method with the receiver symbolic over its full width against the constant table read from go/types", "§5/C20"),
 }
 na = {
- "C07": "not yet claimed in this commit: depends on the encoder harnesses",
  "C08": "not yet claimed in this commit: shared-write frame harness under construction",
  "C09": "not yet claimed in this commit: reduced non-interference claim depends on C08's frame",
  "C10": "not yet claimed in this commit: framing harnesses under construction",
